@@ -409,8 +409,8 @@ func runSweepSession(c *vlib.Ctx, s sweepSession, seen func(mode string, sm swee
 
 // planSweep turns the SIZE records into sessions: per mode every accepted case in ascending, descending and
 // shuffled order (more shuffles in the thorough tier), chunked; every refused case closes one session.
-func planSweep(cases map[string]sizeCase, r *rand.Rand, chunk, shuffles int) (sessions []sweepSession, applicable map[string]int) {
-	applicable = map[string]int{}
+func planSweep(cases map[string]sizeCase, r *rand.Rand, chunk, shuffles int) (sessions []sweepSession, applicable map[string]int, skipped map[string][]int) {
+	applicable, skipped = map[string]int{}, map[string][]int{}
 	keys := make([]string, 0, len(cases))
 	for k := range cases {
 		keys = append(keys, k)
@@ -434,6 +434,7 @@ func planSweep(cases map[string]sizeCase, r *rand.Rand, chunk, shuffles int) (se
 			if _, _, ok := sized(dir, cs.P, 0, 1); !ok {
 				// too small for an object of this direction: the frame of a bare RPC id (ReadID applies the floor)
 				if dir != "r2h" || cs.P != 16 || cs.M != 0 {
+					skipped[mode] = append(skipped[mode], cs.P)
 					continue
 				}
 				sm.IDOnly = true
@@ -493,11 +494,15 @@ var edgeSlacks []int
 // windowSizes all lengths the model walks: the framing collection (trace validation) places RHP2 shapes there too.
 var edgeSizes, windowSizes []int
 
+// edgeElems bounds the distances (in elements) used for RHP4 messages above 1 MiB (set from the tier).
+var edgeElems = 2
+
 // loadSizes runs FrameSizes.tla with the constants of the code and returns its SIZE cases; EDGE records fill edgeSlacks.
 func loadSizes(c *vlib.Ctx) map[string]sizeCase {
 	cfg := "FrameSizes.cfg"
 	if c.Thorough {
 		cfg = "FrameSizesWide.cfg"
+		edgeElems = 1 << 30
 	}
 	res := c.MustTLC(vlib.TLCOpts{SpecDirs: []string{"net"}, Module: "FrameSizes", Config: cfg, Workers: 4})
 	sizes := parseCases(c, res.Lines, "SIZE", sizeFromJSON)
@@ -561,7 +566,7 @@ type sweepTotals struct {
 // runSweep replays every SIZE case on real RHP2 sessions in every mode.
 func runSweep(c *vlib.Ctx, sizes map[string]sizeCase, r *rand.Rand) sweepTotals {
 	var t sweepTotals
-	sessions, applicable := planSweep(sizes, rand.New(rand.NewSource(r.Int63())), c.Pick(12, 16), c.Pick(1, 4))
+	sessions, applicable, skipped := planSweep(sizes, rand.New(rand.NewSource(r.Int63())), c.Pick(12, 16), c.Pick(1, 10))
 	var mu sync.Mutex
 	ran := map[string]map[string]bool{}      // mode -> case key -> executed
 	onWire := map[string]map[int]bool{}      // mode -> object length whose frame was seen on the wire
@@ -601,10 +606,21 @@ func runSweep(c *vlib.Ctx, sizes map[string]sizeCase, r *rand.Rand) sweepTotals 
 	// vacuity guards: every case of the model was sent in every mode, and the frames really crossed the wire
 	for _, mode := range []string{"r2h", "h2r", "h2r-raw"} {
 		t.distinct += int64(len(ran[mode]))
-		if len(ran[mode]) != applicable[mode] || applicable[mode] < len(sizes)-8 {
+		if len(ran[mode]) != applicable[mode] || applicable[mode]+len(skipped[mode]) != len(sizes) {
 			c.Infra("vacuity: size sweep %s executed %d of %d applicable cases (%d enumerated)", mode, len(ran[mode]), applicable[mode], len(sizes))
 		}
+		tooSmall := map[int]bool{}
+		for _, p := range skipped[mode] {
+			// only lengths below the smallest real object of the direction may be left out (never a window size)
+			tooSmall[p] = true
+			if p >= 200 {
+				c.Infra("vacuity: size sweep %s: no object of %d bytes could be built", mode, p)
+			}
+		}
 		for _, s := range sizes {
+			if tooSmall[s.P] && !(mode == "r2h" && s.P == 16) {
+				continue
+			}
 			if !onWire[mode][s.P] {
 				c.Infra("vacuity: size sweep %s: no frame of an object of %d bytes was seen on the wire", mode, s.P)
 				break
@@ -627,7 +643,7 @@ func runSweep(c *vlib.Ctx, sizes map[string]sizeCase, r *rand.Rand) sweepTotals 
 		}
 	}
 	c.Cov("size_sweep", map[string]any{"sessions": len(sessions), "messages": t.evals, "distinct_mode_length_limit": t.distinct,
-		"applicable_cases_per_mode": applicable, "delivered_per_zone": delivered, "refused": refusedN, "objects": objects})
+		"applicable_cases_per_mode": applicable, "lengths_below_smallest_object": skipped, "delivered_per_zone": delivered, "refused": refusedN, "objects": objects})
 	return t
 }
 
